@@ -384,6 +384,9 @@ def hist_impl_replies(h):
             if not mixed and hasx != (ext_x is not None):
                 out.append("ext_x-presence-differs")
                 continue
+            if ext_x is not None and ext_x.shape != ext.shape:
+                out.append("ext_x-shape-%s-differs-from-ext-%s" % (ext_x.shape, ext.shape))
+                continue
             x0 = ftok(ext_x[i, 0]) if ext_x is not None else "nan"
             x1 = ftok(ext_x[i, 1]) if ext_x is not None else "nan"
             out.append("%s %s %s %s %s %s" % (ftok(ext[i, 0]), x0, mxc[i], ftok(ext[i, 1]), x1, mnc[i]))
@@ -2922,6 +2925,9 @@ def oracle_hist(h):
                  repr(e), "updated extrema")]
     ext, ext_x, mxc, mnc = snaps[-1]
     calls = h["calls"]
+    if ext_x is not None and ext_x.shape != ext.shape:
+        return [("extrema-%d-column-abscissa-table-shape" % cols, "ext_x has shape %s, ext has %s" % (ext_x.shape, ext.shape), h,
+                 list(ext_x.shape), list(ext.shape))]
     nanfirst = all(v is None for row in calls[0]["ext"] for v in row)
     tag = ("-nan-first-case" if nanfirst else "")
     for i in range(h["rows"]):
